@@ -590,6 +590,10 @@ spifconf_shell_expand(spif_charptr_t s)
                   }
               }
               if (!builtins[k].name) {
+                  if (!*pbuff) {
+                      /* The percent sign was the last character; keep it. */
+                      pbuff--;
+                  }
                   newbuff[j] = *pbuff;
               } else {
                   D_CONF(("Call to built-in function %s detected.\n", builtins[k].name));
